@@ -38,5 +38,5 @@ def execute(file, cdb, data_out, data_in, max_sense_data_length=32, return_sense
     if status == 0x00:
         return (0, b"") if return_sense_buffer else 0
     if status == 0x02:
-        raise CheckConditionError(bytes(sense))
+        raise CheckConditionError(bytes(sense) if sense is not None else b"")
     raise UnspecifiedError("status %#04x" % status)
